@@ -14,3 +14,38 @@ package cert
 //@   ensures [C02] K1-length: result.1 == nil ==> len(cert.SubjectKeyId) == 20
 //@   ensures [C02] K2-hex: result.1 == nil ==> result.0 == hex(cert.SubjectKeyId)
 //@   ensures [C02] K3-bound: result.1 == nil ==> result.0 == skiOfKey(cert)
+
+// ---- the generator (C02: "certificates from the library's own generator always pass and carry the SKI") ----
+// sha1hex(b) stands for hex(SHA-1(b)); $keybytes is the uncompressed point encoding of a public key.
+//@ ufunc sha1hex(string) string
+//@ ghost field ecdsa.PublicKey.$keybytes string
+//@ ghost field crypto/ecdh.PublicKey.$keybytes string
+//@ lib sha1.Sum(data) pure
+//@   ensures hex(result) == sha1hex(bytes(data))
+//@ lib (k *ecdsa.PublicKey).ECDH() pure
+//@   ensures result.1 == nil ==> result.0 != nil && result.0.$keybytes == k.$keybytes
+//@ lib (k *crypto/ecdh.PublicKey).Bytes() pure
+//@   ensures bytes(result) == k.$keybytes
+//@ lib ecdsa.GenerateKey(c, rand)
+//@   ensures result.1 == nil ==> result.0 != nil
+//@ lib elliptic.P256() pure
+//@ lib rand.Int(r, max)
+//@ lib big.NewInt(x) pure
+//@   ensures result != nil
+//@ lib (z *big.Int).Exp(x, y, m)
+//@   ensures result == z
+//@ lib (z *big.Int).Sub(x, y)
+//@   ensures result == z
+//@ lib time.Time.Add(d) pure
+// $certKey / $certDer: the private key and the DER bytes of the last certificate x509.CreateCertificate made
+//@ ghost global $certKey int
+//@ ghost global $certDer int
+//@ lib x509.CreateCertificate(rand, template, parent, pub, priv)
+//@   modifies $certKey, $certDer
+//@   ensures result.1 == nil ==> $certKey == ref(priv) && $certDer == ref(result.0) && len(result.0) > 0
+//@ func CreateCertificate(organizationalUnit, organization, country, commonName) [C02]
+//@   modifies $certKey, $certDer
+//@   atcall CreateCertificate [C02] G1-len: len($1.SubjectKeyId) == 20
+//@   atcall CreateCertificate [C02] G2-derivation: typeis($3, "*crypto/ecdsa.PublicKey") && hex($1.SubjectKeyId) == sha1hex(cast($3, ecdsa.PublicKey).$keybytes)
+//@   atcall CreateCertificate [C02] G3-selfsigned: $1 == $2 && typeis($4, "*crypto/ecdsa.PrivateKey") && ref(cast($4, ecdsa.PrivateKey).PublicKey) == ref($3)
+//@   ensures [C02] G4-keypair: result.1 == nil ==> ref(result.0.PrivateKey) == $certKey && len(result.0.Certificate) == 1 && ref(result.0.Certificate[0]) == $certDer
